@@ -29,13 +29,18 @@ LEVEL_TEXT = (
     "of the binding that is live on the paths the scenario permits; helpers of the same module, methods nobody overrides, "
     "local lambdas and nested functions are followed on the scenario's values. (R17.1) In http.parse_accept_header every "
     "quality that reaches the (item, q) pair appended to the result - written at the append, built into a local before it, "
-    "or returned by an item helper of the same module whose None result the loop skips; followed back through plain copies "
+    "returned by an item helper of the same module whose None result the loop skips, or yielded by a generator nested in the "
+    "function whose items are collected in order (list() / tuple() / [*g()] handed to the class or bound to the returned "
+    "local, extend / += on the empty list; a later insert / sort / reverse of that list fails R17.3); followed back through plain copies "
     "and, one level, through a helper that computes it (returning the quality, a (flag, quality) pair that the caller "
     "unpacks, or raising an exception that a handler around the call turns into a skip) - is either a constant in [0,1] "
     "(1 when the q parameter is absent) or float() of a text that a dominating test outcome implies the pattern accepted "
     "(the match result tested directly, through `is None` / `not` / bool(), through a local or a flag set on the branches of "
     "the test, in a predicate helper, on the argument passed to the converting helper; the text itself or the whole match "
-    "`m.group()`); from the failing outcome of that test the item is never handed on (no quality is made up for a "
+    "`m.group()`; where no single test outcome dominates the conversion, every entry path that the conditions permit - a "
+    "condition over the same live bindings, or a flag standing for it, keeps the outcome it had earlier on the path - must "
+    "have passed such an outcome on the very binding that is converted); from the failing outcome of that test the item is "
+    "never handed on (no quality is made up for a "
     "malformed q); the pattern's language (DFA built from the folded "
     "regex, cross-checked against the re engine) contains only plain ASCII decimal numerals, contains every RFC 9110 "
     "qvalue with a fraction, and for each of the value ranges q<0, q=0, 0<q<1, q=1, q>1 that the language inhabits the "
@@ -386,6 +391,131 @@ def _converted_text_matched(fe: FuncEval, fact: _Fact, arg: ast.AST, at: Node) -
     return m is fact.call
 
 
+def _versioned(e: ast.AST, cur: dict[str, t.Any], local: set[str]) -> str | None:
+    """source text of the pure expression ``e`` in which every local name carries the identity of the binding that is
+    live on the path walked - ``cur``: name -> (binding, versioned text of the pure expression it was bound to, if
+    any) - so that two occurrences with the same text have the same value; None when ``e`` contains
+    something whose value may differ between two evaluations (a call other than a pattern test / isinstance / bool)."""
+    class T(ast.NodeTransformer):
+        ok = True
+
+        def visit_Name(self, n: ast.Name) -> ast.AST:
+            if n.id in local:
+                d, vt = cur.get(n.id, (None, None))
+                if vt is not None:
+                    return ast.parse(vt, mode="eval").body  # a local that stands for a pure expression (a flag)
+                return ast.Name(id=f"{n.id}__b{id(d) if d is not None else 0}__", ctx=ast.Load())
+            return n
+
+        def visit_NamedExpr(self, n: ast.NamedExpr) -> ast.AST:
+            return self.visit(n.value)
+
+        def visit_Call(self, n: ast.Call) -> ast.AST:
+            f = n.func
+            pure = (isinstance(f, ast.Attribute) and f.attr in ("fullmatch", "match", "search") and dotted(f.value) is not None and dotted(f.value).split(".")[0] not in local) or (
+                isinstance(f, ast.Name) and f.id in ("isinstance", "bool") and f.id not in local)
+            if not pure or n.keywords:
+                self.ok = False
+            return self.generic_visit(n)
+
+        def generic_visit(self, n: ast.AST) -> ast.AST:
+            if isinstance(n, (ast.Lambda, ast.ListComp, ast.SetComp, ast.DictComp, ast.GeneratorExp, ast.Await, ast.Yield, ast.YieldFrom, ast.Starred)):
+                self.ok = False
+            return super().generic_visit(n)
+
+    tr = T()
+    try:
+        out = tr.visit(ast.parse(ast.unparse(e), mode="eval").body)
+    except SyntaxError:
+        return None
+    return norm(out) if tr.ok else None
+
+
+def _path_guards(ctx: Ctx, folder: Folder, F: FuncInfo, feF: FuncEval, arg: ast.AST, at: Node, limit: int = 20000) -> list[tuple[_Fact, Node, str]] | None:
+    """path-sensitive form of "a successful pattern test on the converted text dominates the conversion": the test
+    outcomes (fact, test node, label) of which, on EVERY entry path to ``at`` that the conditions on the way permit,
+    one was taken on the very text ``arg`` denotes at ``at`` (the same expression over the same live bindings; plain
+    copies looked through).  A condition over the same bindings that was decided earlier on the path keeps its outcome
+    (`if s is not None: <test s>` ... `q = 1 if s is None else float(s)`); any other condition permits both outcomes, so
+    the paths walked are a superset of the real ones.  None when some permitted path arrives without such an outcome."""
+    from ..guards import canon
+
+    cfg, rd = feF.cfg, feF.rd
+    local = {d.name for ds in rd.gen.values() for d in ds} | {d.name for d in rd.param_defs}
+    cands: dict[tuple[int, str], _Fact] = {}
+    for tn in cfg.nodes:
+        if tn.kind != "test" or tn.ast is None:
+            continue
+        for lb in ("T", "F"):
+            fact = _match_fact(ctx, folder, F, feF, tn.ast, tn, lb == "T")
+            if fact is not None and fact.fi is F and fact.at is tn:
+                cands[(tn.id, lb)] = fact
+    if not cands:
+        return None
+    used: dict[tuple[int, str], tuple[_Fact, Node, str]] = {}
+    start = ({d.name: (d, None) for d in rd.param_defs}, frozenset(), frozenset())
+    stack: list[tuple[Node, dict[str, t.Any], frozenset, frozenset]] = [(cfg.entry, *start)]
+    seen: set[tuple] = set()
+    steps = 0
+    while stack:
+        n, cur, facts, passed = stack.pop()
+        key = (n.id, frozenset((k, id(v[0]), v[1]) for k, v in cur.items()), facts, passed)
+        if key in seen:
+            continue
+        seen.add(key)
+        steps += 1
+        if steps > limit:
+            raise AnalysisError(f"{F.qualname}: too many paths to `{norm(at.ast)}` to decide whether the converted text was tested")  # type: ignore[arg-type]
+        if n is at:
+            want = _versioned(arg, cur, local)
+            hit = [c for c, subj in passed if subj == want] if want is not None else []
+            if not hit:
+                return None
+            for c in hit:
+                tn = next(x for x in cfg.nodes if x.id == c[0])
+                used[c] = (cands[c], tn, c[1])
+            continue
+        labels: set[str] | None = None
+        new_fact: tuple[str, bool] | None = None
+        k0: str | None = None
+        if n.kind == "test" and n.ast is not None and not isinstance(n.ast, ast.Constant):
+            v = _versioned(n.ast, cur, local)
+            if v is not None:
+                k0, pos = canon(ast.parse(v, mode="eval").body)
+                known = dict(facts).get(k0)
+                if known is not None:
+                    labels = {"T" if known == pos else "F"}
+        # bindings made by the node (a walrus in a test binds before the branch is taken)
+        cur2, facts2, passed2 = cur, facts, passed
+        for d in rd.gen.get(n.id, []):
+            src = d.value.id if _plain(d) and isinstance(d.value, ast.Name) else None
+            if src is not None and src in local and src in cur:
+                new = cur[src]  # a plain copy shares the binding it copies
+            else:
+                vt = _versioned(d.value, cur, local) if _plain(d) and isinstance(d.value, (ast.Compare, ast.UnaryOp, ast.BoolOp, ast.Constant)) else None
+                new = (d, vt)
+                mark = f"__b{id(d)}__"  # executed again (a loop): what was known about its previous value is void
+                facts2 = frozenset(x for x in facts2 if mark not in x[0])
+                passed2 = frozenset(x for x in passed2 if mark not in (x[1] or ""))
+                cur2 = {k: (v if v[1] is None or mark not in v[1] else (v[0], None)) for k, v in cur2.items()}
+            cur2 = {**cur2, d.name: new}
+        for s, l in n.succs:
+            if l in ("T", "F") and n.kind == "test":
+                if labels is not None and l not in labels:
+                    continue
+                f3, p3 = facts2, passed2
+                if k0 is not None and labels is None:
+                    f3 = f3 | {(k0, (l == "T") == pos)}
+                if (n.id, l) in cands:
+                    subj = _versioned(cands[(n.id, l)].subject, cur, local)
+                    if subj is not None:
+                        p3 = p3 | {((n.id, l), subj)}
+                stack.append((s, cur2, f3, p3))
+            else:
+                stack.append((s, cur2, facts2, passed2))
+    return list(used.values()) or None
+
+
 class _Raised:
     """outcome of a helper call: an exception of class ``exc`` (None: not identified) instead of a value."""
 
@@ -516,6 +646,8 @@ def _r171(ctx: Ctx, folder: Folder) -> None:
         c for c in astq.method_calls(fi.node, "append", nested=False)
         if isinstance(c.func, ast.Attribute) and isinstance(c.func.value, ast.Name) and c.func.value.id in lists and len(c.args) == 1 and not c.keywords
     ]
+    if not appends and _pairs_from_generator(ctx, folder, fi, base, lists):
+        return
     if not appends:
         raise AnalysisError("parse_accept_header: no <list>.append(<pair>) feeding the returned Accept (append slot)")
     loops = {id(l): l for l in (astq.enclosing(a, (ast.For,)) for a in appends) if l is not None}
@@ -611,6 +743,120 @@ def _r171(ctx: Ctx, folder: Folder) -> None:
                 ok = bool(seen & a_ids) and not (seen2 & ends)
                 ctx.ob("R17.1", f"a pair returned by {H.qualname} is always appended", ok,
                        f"`{norm(d.stmt)}`: with a pair the item {'always reaches' if ok else 'can miss'} `{norm(a)}`", fi, d.stmt, "item helper pair appended")
+
+
+def _pairs_from_generator(ctx: Ctx, folder: Folder, fi: FuncInfo, base: FuncEval, lists: set[str]) -> bool:
+    """the (item, quality) pairs are yielded by a generator function nested in parse_accept_header and collected, in
+    the order they are yielded, into what the Accept class receives (`cls(list(g()))`, `result = list(g())`,
+    `result.extend(g())` on the empty list): R17.1 is then decided on the generator, a `yield` being the place where a
+    pair is handed on.  False when the function has no such generator; AnalysisError when it has one that is consumed
+    in a way not understood."""
+    repo = ctx.repo
+    gens = [g for g in walk_no_nested(fi.node) if isinstance(g, ast.FunctionDef) and any(isinstance(y, (ast.Yield, ast.YieldFrom)) for y in walk_no_nested(g))]
+    if not gens:
+        return False
+
+    def unwrap(x: ast.AST) -> ast.AST:
+        """list(g()) / tuple(g()) / [*g()] -> g()  (wrappers that keep every element, in order)."""
+        for _ in range(3):
+            if isinstance(x, ast.Call) and isinstance(x.func, ast.Name) and x.func.id in ("list", "tuple") and len(x.args) == 1 and not x.keywords and repo.resolve(fi.module, x.func.id) == f"builtins.{x.func.id}":
+                x = x.args[0]
+            elif isinstance(x, (ast.List, ast.Tuple)) and len(x.elts) == 1 and isinstance(x.elts[0], ast.Starred):
+                x = x.elts[0].value
+            else:
+                break
+        return x
+
+    def gen_call(x: ast.AST | None, at: Node | None) -> ast.FunctionDef | None:
+        x = unwrap(x) if x is not None else None
+        if not (isinstance(x, ast.Call) and isinstance(x.func, ast.Name)) or at is None:
+            return None
+        ds = base.rd.reaching(at, x.func.id)
+        d = next(iter(ds)) if len(ds) == 1 else None
+        return d.stmt if d is not None and d.kind == "def" and any(d.stmt is g for g in gens) else None  # type: ignore[return-value]
+
+    feeds: list[tuple[ast.FunctionDef, ast.AST]] = []
+    problems: list[str] = []
+    for r in astq.returns_of(fi.node):
+        v, rn = r.value, base.cfg.node_of(r)
+        if not (isinstance(v, ast.Call) and len(v.args) == 1 and not v.keywords) or rn is None:
+            continue
+        a0 = v.args[0]
+        g = gen_call(a0, rn)
+        if g is not None:
+            feeds.append((g, r))
+            continue
+        if not isinstance(a0, ast.Name):
+            continue
+        # the local handed to the class: bound to the collected generator, or the empty list extended by it - and
+        # nothing else happens to it
+        reach = list(base.rd.reaching(rn, a0.id))
+        reach += [d2 for d in reach if d.kind == "aug" and d.node is not None for d2 in base.rd.reaching(d.node, a0.id)]  # `x += ...` keeps what x was bound to
+        binds = sorted({id(d): d for d in reach if d.kind != "aug"}.values(), key=lambda d: getattr(d.stmt, "lineno", 0))
+        muts = [c for c in astq.calls(fi.node, nested=False) if isinstance(c.func, ast.Attribute) and isinstance(c.func.value, ast.Name) and c.func.value.id == a0.id]
+        augs = [s_ for s_ in walk_no_nested(fi.node) if isinstance(s_, ast.AugAssign) and isinstance(s_.target, ast.Name) and s_.target.id == a0.id]
+        from_bind = [gen_call(d.value, d.node) for d in binds if _plain(d)]
+        if binds and len(from_bind) == len(binds) and all(g_ is not None for g_ in from_bind):
+            if muts or augs:
+                problems.append(f"`{a0.id}` is changed after it collected the generator: {[norm(x) for x in muts + augs][:2]}")
+            feeds += [(g_, d.stmt) for g_, d in zip(from_bind, binds)]  # type: ignore[misc]
+            continue
+        grown: list[tuple[ast.FunctionDef, ast.AST]] = []
+        for c in muts:
+            g = gen_call(c.args[0], base.cfg.node_of(c)) if c.func.attr == "extend" and len(c.args) == 1 and not c.keywords else None  # type: ignore[union-attr]
+            if g is not None:
+                grown.append((g, c))
+            elif any(isinstance(x, ast.Name) and any(x.id == g_.name for g_ in gens) for x in ast.walk(c)):
+                problems.append(f"`{norm(c)}`")
+        for s_ in augs:
+            g = gen_call(s_.value, base.cfg.node_of(s_)) if isinstance(s_.op, ast.Add) else None
+            if g is not None:
+                grown.append((g, s_))
+        if grown:
+            empty0 = all(_plain(d) and isinstance(d.value, ast.List) and not d.value.elts for d in binds) and len(binds) == 1
+            in_loop = any(astq.enclosing(x, (ast.For, ast.While)) is not None for _, x in grown)
+            reorder = [c for c in muts if c.func.attr in ("insert", "sort", "reverse", "pop", "remove", "clear")]  # type: ignore[union-attr]
+            if reorder:
+                ctx.ob("R17.3", "parse_accept_header keeps the client's order: the result list only grows by append", False,
+                       f"the pairs yielded by `{grown[0][0].name}` are collected by `{norm(grown[0][1])}`; other mutations of the list: {[norm(o) for o in reorder]}", fi, reorder[0], "result list append-only")
+                muts = [c for c in muts if not any(c is o for o in reorder)]
+            if not empty0 or len(grown) != 1 or len(muts) + len(augs) != 1 or in_loop:
+                problems.append(f"`{a0.id}` does not consist of exactly what the generator yields (other bindings / mutations / a loop around `{norm(grown[0][1])}`)")
+            feeds += grown
+    if not feeds:
+        if any(isinstance(x, ast.Name) and any(x.id == g_.name for g_ in gens) for x in walk_no_nested(fi.node)):
+            raise AnalysisError(f"parse_accept_header: cannot see how what the nested generator `{gens[0].name}` yields reaches the returned Accept (append slot)")
+        return False
+    if problems or len({id(g) for g, _ in feeds}) != 1:
+        raise AnalysisError("parse_accept_header: pairs come from a nested generator, but " + (problems[0] if problems else "from more than one"))
+    G = feeds[0][0]
+    FG = normalised(FuncInfo(fi.module, G, f"{fi.qualname}.{G.name}", fi.cls))
+    feG = FuncEval(repo, folder, FG)
+    ys = [x for x in walk_no_nested(FG.node) if isinstance(x, (ast.Yield, ast.YieldFrom))]
+    sinks: list[_Sink] = []
+    for y in ys:
+        st = astq.parent(y)
+        yn = feG.cfg.node_of(st) if isinstance(st, ast.Expr) else None
+        if isinstance(y, ast.YieldFrom) or yn is None:
+            raise AnalysisError(f"parse_accept_header: `{norm(y)}` in the pair generator `{G.name}` is not a plain `yield <item>, <quality>` statement (append slot)")
+        x = y.value
+        if isinstance(x, ast.Tuple) and len(x.elts) == 2:
+            sinks.append(_Sink(st, yn, x.elts[1], yn))
+            continue
+        ds = sorted(feG.rd.reaching(yn, x.id), key=lambda d: getattr(d.stmt, "lineno", 0)) if isinstance(x, ast.Name) else []
+        if not ds or not all(_plain(d) and isinstance(d.value, ast.Tuple) and len(d.value.elts) == 2 for d in ds):
+            raise AnalysisError(f"parse_accept_header: `{norm(y)}` in the pair generator `{G.name}` does not yield an (item, quality) pair written out there or built into a local (append slot)")
+        sinks += [_Sink(st, yn, d.value.elts[1], d.node) for d in ds]
+    loops = {id(l): l for l in (astq.enclosing(sk.stmt, (ast.For,)) for sk in sinks) if l is not None}
+    if len(loops) != 1 or any(astq.enclosing(sk.stmt, (ast.For,)) is None for sk in sinks):
+        raise AnalysisError(f"parse_accept_header: the yields of `{G.name}` are not inside one item loop")
+    head = feG.cfg.node_of(next(iter(loops.values())))
+    if head is None:
+        raise AnalysisError(f"parse_accept_header: CFG node of the loop of `{G.name}` not found")
+    ctx.ob("R17.3", "parse_accept_header keeps the client's order: the result list only grows by append", True,
+           f"{len(sinks)} yield site(s) in `{G.name}`, collected in order by `{norm(feeds[0][1])}`", fi, feeds[0][1], "result list append-only")
+    _quality_paths(ctx, folder, FG, feG, sinks, {head.id, feG.cfg.exit.id, feG.cfg.raise_exit.id})
+    return True
 
 
 def _quality_paths(ctx: Ctx, folder: Folder, fi: FuncInfo, base: FuncEval, sinks: list[_Sink], ends: set[int]) -> None:
@@ -839,23 +1085,43 @@ def _quality_paths(ctx: Ctx, folder: Folder, fi: FuncInfo, base: FuncEval, sinks
                 fact = _match_fact(ctx, folder, fi, base, tn.ast, tn, lb == "T")
                 if fact is not None and fact.fi is fi and _converted_text_matched(base, fact, passed, d0.node):
                     found = (fact.rx, fact.name, fact.mode, tn, lb, fi)
+        founds = [found] if found is not None else []
         if found is None:
+            # no single test outcome dominates the conversion: decide path by path (the test may sit under a condition
+            # that is decided again, in another spelling, where the conversion happens)
+            pg = _path_guards(ctx, folder, F, feF, arg, dF.node)
+            if pg is not None:
+                founds = [(fact.rx, fact.name, fact.mode, tn, lb, F) for fact, tn, lb in sorted(pg, key=lambda x: x[1].id)]
+                if len({(f_[0], f_[2]) for f_ in founds}) != 1:
+                    raise AnalysisError(f"{here}: `{norm(dF.stmt)}` is guarded by different pattern tests on different paths")
+        if not founds:
+            # a pattern is consulted somewhere in the function(s) involved, but no outcome of any test there is understood
+            # as "the pattern accepted a text": that is a way of testing this analysis cannot read, not a missing test
+            # (a test that is understood and does not guard the conversion - removed, flipped, on another text - is a violation)
+            scopes = [(F, feF)] + ([(fi, base)] if F is not fi else [])
+            consulted = [c for F_, _fe in scopes for c in astq.calls(F_.node, nested=False)
+                         if (isinstance(c.func, ast.Attribute) and c.func.attr in ("fullmatch", "match", "search", "findall", "finditer", "sub", "split")
+                             and (fold_regex_expr(repo, folder, F_, c.func.value) is not None or dotted(c.func.value) == "re"))]
+            understood = any(_match_fact(ctx, folder, F_, fe_, tn.ast, tn, w) is not None for F_, fe_ in scopes for tn in fe_.cfg.nodes if tn.kind == "test" and tn.ast is not None for w in (True, False))
+            if consulted and not understood:
+                raise AnalysisError(f"{here}: cannot interpret how the result of `{norm(consulted[0])}` decides whether `{norm(dF.stmt)}` is reached (pattern test slot)")
             ctx.ob("R17.1", f"{src} is dominated by a successful pattern test on the same text", False,
                    "no `<pattern>.fullmatch(text)` outcome dominates the conversion: a malformed q reaches float() (ValueError, or 'nan'/'1e0' accepted)", fi, dF.stmt, "q float guarded")
             return
-        rx, name, mode, tn, lb_ok, where = found
         count["guarded"] += 1
-        # the other outcome of that test: the text is not a numeral the pattern accepts (or fails whatever else the
-        # tested value stands for) - the item must be dropped, no quality may be made up for it
-        failed = [s_ for s_, l in tn.succs if l == ("F" if lb_ok == "T" else "T")]
-        if where is fi:
-            fe_ = FuncEval(repo, folder, fi)
-            fe_.assume.append((tn, lb_ok != "T"))  # the same condition tested again has the same outcome
-            seen_ = fe_.explore(failed, stop=a_ids | ends)
-            ctx.ob("R17.1", "an item whose q text fails the pattern test is ignored", not (seen_ & a_ids),
-                   f"from the failing outcome of `{norm(tn.ast)}` the item {'can still be handed on as a pair' if seen_ & a_ids else 'is never handed on'}", fi, tn.ast, "q pattern failure ignored")
-        else:
-            rejected.setdefault(where.fq, []).extend(failed)
+        for rx, name, mode, tn, lb_ok, where in founds:
+            # the other outcome of that test: the text is not a numeral the pattern accepts (or fails whatever else the
+            # tested value stands for) - the item must be dropped, no quality may be made up for it
+            failed = [s_ for s_, l in tn.succs if l == ("F" if lb_ok == "T" else "T")]
+            if where is fi:
+                fe_ = FuncEval(repo, folder, fi)
+                fe_.assume.append((tn, lb_ok != "T"))  # the same condition tested again has the same outcome
+                seen_ = fe_.explore(failed, stop=a_ids | ends)
+                ctx.ob("R17.1", "an item whose q text fails the pattern test is ignored", not (seen_ & a_ids),
+                       f"from the failing outcome of `{norm(tn.ast)}` the item {'can still be handed on as a pair' if seen_ & a_ids else 'is never handed on'}", fi, tn.ast, "q pattern failure ignored")
+            else:
+                rejected.setdefault(where.fq, []).extend(failed)
+        rx, name, mode, tn, lb_ok, where = founds[0]
         _Q_PATTERNS.setdefault(id(ctx), []).append((rx, name, mode))
         ctx.ob("R17.1", f"{src} is dominated by a successful pattern test on the same text", True, f"`{norm(tn.ast)}` ({name} = {rx.pattern!r}, flags {rx.flags}) dominates the conversion" + (f" in {F.qualname}" if F is not fi else ""), fi, dF.stmt, "q float guarded")
         try:
